@@ -87,6 +87,10 @@ def empty_placement(lens):
 def values(rng, dtype, n, vclass="small"):
     """n values of a dtype from a tagged value class"""
     dt = np.dtype(dtype)
+    if vclass == "sparse":
+        # mostly zeros: the class that makes any / all / nonzero / logical ufuncs non-trivial
+        pool = [0, 0, 0, 1, 2] + ([-1] if dt.kind in "if" else [])
+        return np.array([rng.choice(pool) for _ in range(n)]).astype(dt)
     if dt.kind == "b":
         return np.array([rng.random() < 0.5 for _ in range(n)], dtype=bool)
     if dt.kind in "iu":
